@@ -938,7 +938,9 @@ def _d_update(I, recv, args, kwargs):
         if isinstance(args[0], SDict):
             recv.items.update(args[0].items)
         else:
-            raise Undecided("dict.update(non-dict)")
+            for it in I.iter_concrete(args[0]):
+                k_, v_ = I.unpack(it, 2)
+                recv.items[I.hashable(k_)] = v_
     recv.items.update(kwargs)
 
 
@@ -1364,19 +1366,25 @@ def be_get_params(I, recv, args, kwargs):
 
 @method("SObj", "BaseEstimator.set_params")
 def be_set_params(I, recv, args, kwargs):
-    valid = _init_param_names(I, recv.cls)
+    """sklearn.base.BaseEstimator.set_params (0.24): valid names are the keys of self.get_params(deep=True) -- the
+    VIRTUAL get_params, so composites contribute their component names --, `a__b` goes to valid[a].set_params(b=..)"""
+    if not kwargs:
+        return recv
+    valid = I.call(I.getattr(recv, "get_params"), [], {"deep": True})
+    if not isinstance(valid, SDict):
+        raise Undecided("get_params did not return a dict")
     nested = {}
     for key, value in kwargs.items():
-        k0, _, rest = key.partition("__")
-        if k0 not in valid:
+        k0, delim, rest = key.partition("__")
+        if k0 not in valid.items:
             raise SymRaise(ExcVal(ExtClass("builtins.ValueError"), (f"Invalid parameter {k0}",)), where="set_params")
-        if rest:
+        if delim:
             nested.setdefault(k0, {})[rest] = value
         else:
             I.setattr(recv, key, value)
+            valid.items[key] = value
     for k0, sub in nested.items():
-        tgt = I.getattr(recv, k0)
-        I.call(I.getattr(tgt, "set_params"), [], sub)
+        I.call(I.getattr(valid.items[k0], "set_params"), [], sub)
     return recv
 
 
